@@ -639,6 +639,10 @@ def run(chk):
         return True, "", ["%d defaulted extent chains, none narrowed first" % n]
     chk.ob("C13.R6:timestamps-kept", "a default time replaces only an absent extent, never one that exists but is not of the wanted form", timestamps_kept)
 
+    from . import anystream
+    anystream.rules(chk, P, "C13.R7")
+    anystream.values_balanced(chk, P)
+
     def point_arithmetic():
         """Integer metric points are accumulated with overflow detection: an integer written to a data point comes straight from the
         input or from the Some payload of a checked operation; a clamped or wrapped total is not the sum and must not be exported
